@@ -261,12 +261,17 @@ CHECKS = {
               "position pattern; a deliberately wrong variant (stop at the first identity term) is shown to violate the "
               "invariant on every run. Every explored list is replayed into both engines (BLS12-381, BN254 dev curve): "
               "product of single pairings, multi_miller_loop + final_exponentiation on prepared G2 points in both orders, "
-              "pairing_with from both sides; Pairing_Trace requires the logarithm of each result to the base e(g1, g2) to be "
+              "pairing_with from both sides, and the Miller loops of the single pairs combined with +, + &, +=, += & before one final "
+              "exponentiation; Pairing_Trace requires the logarithm of each result to the base e(g1, g2) to be "
               "the specification's, single pairings to be neutral iff an argument is the identity, and the target group's "
-              "generator to have order r."),
+              "generator to have order r. The target group is also judged as the order-r subgroup of Fp12 (Tower.tla): the twelve "
+              "coefficients of pairing values e(aG1, bG2) must be the (ab)-th power of e(G1, G2), which must have order r and lie in "
+              "the cyclotomic subgroup; Gt +, -, negation, doubling, sums and scalar multiples must be the Fp12 product, conjugate "
+              "and powers; final_exponentiation(f) must be f^(c (p^12 - 1)/r) (c = 3 for the blst engine, 1 for BN254)."),
         design_ref="DESIGN.md 4/C13",
-        note=("Logarithms are found by search with the library's own Gt operations; Miller-loop / final-exponentiation numerics and "
-              "the Gt encoding are not re-derived; scalars limited to the menu."),
+        note=("Logarithms are found by search with the library's own Gt operations (themselves judged on coefficients); the Miller "
+              "loop is not re-derived; Gt has no byte encoding in the library; scalars limited to the menus. One open finding (BN254 "
+              "Miller-loop results combine by field addition)."),
         technique="TLA+/TLC model checking of the bilinear dlog model + replay of every explored list into both pairing engines, validated as traces",
     ),
     "C14": dict(
